@@ -38,6 +38,10 @@ type Case struct {
 	// leaves the modem before Flush, so the queue always exceeds the message bytes handed over so far)
 	QueueA int `json:"queue_a_quarters,omitempty"`
 	QueueB int `json:"queue_b_quarters,omitempty"`
+	// FlushA/FlushB > 0 (and no modem on that side): the transport implements Flush only (no TxBufferLen), and a
+	// Flush takes that many milliseconds
+	FlushA int `json:"flush_a_ms,omitempty"`
+	FlushB int `json:"flush_b_ms,omitempty"`
 	// how long the modem takes to answer TxBufferLen (ms)
 	QueryA int `json:"query_a_ms,omitempty"`
 	QueryB int `json:"query_b_ms,omitempty"`
@@ -127,6 +131,12 @@ func run(c Case) (sig, msg string, nonFinal int) {
 					m.Quarters, m.QueryDelay = c.QueueB, time.Duration(c.QueryB)*time.Millisecond
 				}
 				return m
+			}
+			if side == "A" && c.FlushA > 0 {
+				return &stream.FlushOnly{End: e, FlushTime: time.Duration(c.FlushA) * time.Millisecond}
+			}
+			if side == "B" && c.FlushB > 0 {
+				return &stream.FlushOnly{End: e, FlushTime: time.Duration(c.FlushB) * time.Millisecond}
 			}
 			return e
 		},
@@ -297,10 +307,17 @@ func genCase(t *rapid.T) Case {
 			return l
 		}
 	}
-	return Case{Sc: sc, PaceA: pace("paceA"), PaceB: pace("paceB"), ModemA: rapid.Bool().Draw(t, "modemA"), ModemB: rapid.Bool().Draw(t, "modemB"),
+	c := Case{Sc: sc, PaceA: pace("paceA"), PaceB: pace("paceB"), ModemA: rapid.Bool().Draw(t, "modemA"), ModemB: rapid.Bool().Draw(t, "modemB"),
 		QueueA: rapid.SampledFrom([]int{1, 2, 4, 4}).Draw(t, "queueA"), QueueB: rapid.SampledFrom([]int{1, 2, 4, 4}).Draw(t, "queueB"),
 		QueryA: rapid.SampledFrom([]int{0, 0, 0, 30, 120, 240}).Draw(t, "queryA"), QueryB: rapid.SampledFrom([]int{0, 0, 0, 30, 120, 240}).Draw(t, "queryB"),
 		ResumeAt: resumeAt}
+	if !c.ModemA && rapid.IntRange(0, 2).Draw(t, "flush_only_a") == 0 {
+		c.FlushA = rapid.SampledFrom([]int{1, 300, 600}).Draw(t, "flush_a")
+	}
+	if !c.ModemB && rapid.IntRange(0, 2).Draw(t, "flush_only_b") == 0 {
+		c.FlushB = rapid.SampledFrom([]int{1, 300, 600}).Draw(t, "flush_b")
+	}
+	return c
 }
 
 // bound the total sleeping of a case (writes are ~ size/125 per message)
@@ -351,6 +368,9 @@ func TestProp(t *testing.T) {
 		}
 		if c.ResumeAt > 0 {
 			harness.Label("resumed-transfer(FS !offset)")
+		}
+		if (c.FlushA >= 300 && len(c.Sc.A.Queue) > 0) || (c.FlushB >= 300 && len(c.Sc.B.Queue) > 0) {
+			harness.Label("flush-only-transport(sender)-with-Flush>=300ms")
 		}
 		if (c.ModemA && c.QueryA > 0) || (c.ModemB && c.QueryB > 0) {
 			harness.Label("txbuffer-query-takes-time")
